@@ -315,7 +315,10 @@ func c15RegistryCase(c *Ctx, k int) {
 }
 
 // c15Independence: a fresh instance must not be affected by what happened to
-// other instances of the same name.
+// other instances of the same name. State is compared structurally (%+v of a
+// fresh instance before and after) and behaviourally (a fixed request with
+// default attributes must give the same bits before and after), across many
+// attribute variants of the instance that is used in between.
 func c15Independence(c *Ctx, name string) {
 	c.Nontrivial("independence|" + name)
 	render := func(op ops.Operator) string { return fmt.Sprintf("%T %+v", op, op) }
@@ -325,15 +328,22 @@ func c15Independence(c *Ctx, name string) {
 		return
 	}
 	s1 := render(fresh1)
-	// use another instance with non-default attributes
-	req, _, ok := SampleValidReq(c.R, name, true)
-	if ok {
-		o, _ := mon.RunOpAPI(req)
-		c.Eval(1)
-		_ = o
+	// behavioural probe: a request with default attributes, run on a fresh instance
+	probe, _, probeOK := SampleValidReq(c.R, name, false)
+	var before mon.Outcome
+	if probeOK {
+		before, _ = mon.RunOpAPI(probe)
 	}
-	other, _ := opset13.GetOperator(name)
-	if ok {
+	variants := 0
+	var lastReq mon.OpReq
+	for v := 0; v < 48; v++ {
+		req, _, ok := SampleValidReq(c.R, name, true)
+		if !ok {
+			break
+		}
+		variants++
+		lastReq = req
+		other, _ := opset13.GetOperator(name)
 		node := nodeFor(req)
 		_ = mon.Capture(nil, func() ([]tensor.Tensor, error) {
 			if err := other.Init(node); err != nil {
@@ -345,21 +355,33 @@ func c15Independence(c *Ctx, name string) {
 			}
 			return other.Apply(in)
 		})
-	}
-	fresh2, _ := opset13.GetOperator(name)
-	c.Eval(3)
-	if s2 := render(fresh2); s2 != s1 {
-		c.Violation("registry:"+name+":state-leaks-between-lookups", "a fresh instance differs after another instance was used:\n before: %s\n after:  %s", trunc(s1, 300), trunc(s2, 300))
-	}
-	if s1b := render(fresh1); s1b != s1 {
-		c.Violation("registry:"+name+":state-shared-between-instances", "an untouched instance changed when another instance was initialised:\n before: %s\n after:  %s", trunc(s1, 300), trunc(s1b, 300))
-	}
-	if reflect.TypeOf(fresh1).Kind() == reflect.Ptr && reflect.TypeOf(fresh1).Elem().Size() > 0 {
-		if reflect.ValueOf(fresh1).Pointer() == reflect.ValueOf(fresh2).Pointer() || reflect.ValueOf(fresh1).Pointer() == reflect.ValueOf(other).Pointer() {
-			c.Violation("registry:"+name+":same-instance-returned", "two lookups of %s returned the same stateful instance", name)
+		fresh2, _ := opset13.GetOperator(name)
+		c.Eval(3)
+		if s2 := render(fresh2); s2 != s1 {
+			c.Violation("registry:"+name+":state-leaks-between-lookups", "a fresh instance differs after another instance was used with %s:\n before: %s\n after:  %s", trunc(req.Describe(), 200), trunc(s1, 300), trunc(s2, 300))
+			break
+		}
+		if s1b := render(fresh1); s1b != s1 {
+			c.Violation("registry:"+name+":state-shared-between-instances", "an untouched instance changed when another instance was initialised with %s:\n before: %s\n after:  %s", trunc(req.Describe(), 200), trunc(s1, 300), trunc(s1b, 300))
+			break
+		}
+		if reflect.TypeOf(fresh1).Kind() == reflect.Ptr && reflect.TypeOf(fresh1).Elem().Size() > 0 {
+			if reflect.ValueOf(fresh1).Pointer() == reflect.ValueOf(fresh2).Pointer() || reflect.ValueOf(fresh1).Pointer() == reflect.ValueOf(other).Pointer() {
+				c.Violation("registry:"+name+":same-instance-returned", "two lookups of %s returned the same stateful instance", name)
+				break
+			}
+		}
+		if probeOK && v%8 == 7 {
+			after, _ := mon.RunOpAPI(probe)
+			c.Eval(1)
+			if d := diffOutcomes(before, after); d != "" {
+				c.Violation("registry:"+name+":behaviour-depends-on-other-instances", "the same default-attribute request gives a different result after other instances were used (last: %s): %s | %s", trunc(req.Describe(), 200), d, trunc(probe.Describe(), 200))
+				break
+			}
 		}
 	}
-	c.Sample(map[string]any{"registry_independence": name, "fresh_state": trunc(s1, 120), "used_with": trunc(req.Describe(), 200)})
+	c.Count("independence-variants", int64(variants))
+	c.Sample(map[string]any{"registry_independence": name, "fresh_state": trunc(s1, 120), "attribute_variants_used": variants, "last_used_with": trunc(lastReq.Describe(), 200)})
 }
 
 // c15ForeignModel: a graph containing a foreign operator type must make Run
@@ -539,4 +561,30 @@ func c15SameInstanceSequence(c *Ctx, name string) {
 		}
 	}
 	c.Nontrivial("same-instance-sequence|" + name)
+}
+
+// diffOutcomes compares two outcomes of the same request bit for bit.
+func diffOutcomes(a, b mon.Outcome) string {
+	if a.Kind != b.Kind {
+		return fmt.Sprintf("first %s, then %s", trunc(a.Describe(), 150), trunc(b.Describe(), 150))
+	}
+	if a.Kind != mon.Value {
+		return ""
+	}
+	if len(a.Vals) != len(b.Vals) {
+		return fmt.Sprintf("%d outputs, then %d", len(a.Vals), len(b.Vals))
+	}
+	for i := range a.Vals {
+		x, y := a.Vals[i], b.Vals[i]
+		if (x == nil) != (y == nil) {
+			return fmt.Sprintf("output %d nil-ness differs", i)
+		}
+		if x == nil {
+			continue
+		}
+		if kind, what := CompareValue(x, &ref.Approx{T: y}, CmpBits); kind != "" {
+			return fmt.Sprintf("output %d: %s %s", i, kind, what)
+		}
+	}
+	return ""
 }
